@@ -58,6 +58,7 @@ func driveC09(t *testing.T, out *vEmitter) {
 	vKeys()
 	defer driveC09Stores(t, out)
 	defer vC09NonRefreshing(t, out)
+	defer vC09MaxAgeHosts(t, out)
 	r := vRand()
 	secret := "0123456789abcdefghijklmnopqrstuv"
 	name := "_oauth2_proxy"
@@ -375,6 +376,67 @@ func vC09NonRefreshing(t *testing.T, out *vEmitter) {
 			if r.Status == 202 {
 				out.Violation("lifetime/expired-session-honoured", "a session was honoured although cookie-expire has elapsed since it was issued",
 					map[string]interface{}{"redis": redis, "provider": "non-refreshing, token response " + enc, "session_has_expiry": s.ExpiresOn != nil})
+			}
+		}
+	}
+}
+
+// vC09MaxAgeHosts: the Max-Age clause for every way the request host can relate to the configured cookie domains
+// (matching, matching another entry, no entry at all: other letter case, trailing dot, address literal, alias).
+func vC09MaxAgeHosts(t *testing.T, out *vEmitter) {
+	hosts := []string{"app.example.com", "x.apps.example.org", "APP.EXAMPLE.COM", "app.example.com.", "[::1]:4180", "10.1.2.3", "unrelated.test:8443", "localhost"}
+	for _, redis := range []bool{false, true} {
+		for _, domains := range [][]string{nil, {".example.com"}, {"apps.example.org", ".example.com"}} {
+			exp := 2 * time.Hour
+			e := vNewEnv(t, vEnvCfg{oidc: true, redis: redis, mod: func(o *options.Options) {
+				o.Cookie.Expire = exp
+				o.Cookie.Domains = append([]string(nil), domains...)
+				o.Providers[0].OIDCConfig.InsecureSkipNonce = true
+			}})
+			for _, h := range hosts {
+				for _, big := range []bool{false, true} {
+					created := time.Now()
+					expires := created.Add(time.Hour)
+					at := "at"
+					if big {
+						at = "at-" + vIncompressible(4500)
+					}
+					s := &sessionsapi.SessionState{CreatedAt: &created, ExpiresOn: &expires, Email: "user@example.com", User: "u", AccessToken: at}
+					rw := httptest.NewRecorder()
+					req := httptest.NewRequest("GET", "https://app.example.com/", nil)
+					req.Host = h
+					if err := e.p.sessionStore.Save(rw, req, s); err != nil {
+						t.Fatal(err)
+					}
+					cs := (&http.Response{Header: rw.Header()}).Cookies()
+					n := 0
+					for _, c := range cs {
+						if c.Value == "" {
+							continue
+						}
+						n++
+						if c.MaxAge != int(exp/time.Second) {
+							out.Violation("lifetime/max-age", "the Max-Age given to the browser is not the configured lifetime",
+								map[string]interface{}{"max_age": c.MaxAge, "expire_s": int(exp / time.Second), "redis": redis, "host": h, "cookie_domains": domains, "cookie": c.Name})
+						}
+					}
+					// the deletion sent for the same host tells the browser to drop it at once
+					rw2 := httptest.NewRecorder()
+					req2 := httptest.NewRequest("GET", "https://app.example.com/", nil)
+					req2.Host = h
+					for _, c := range cs {
+						req2.AddCookie(&http.Cookie{Name: c.Name, Value: c.Value})
+					}
+					_ = e.p.sessionStore.Clear(rw2, req2)
+					for _, c := range (&http.Response{Header: rw2.Header()}).Cookies() {
+						if c.MaxAge >= 0 {
+							out.Violation("lifetime/deletion-max-age", "a deleting cookie does not tell the browser to drop the credential",
+								map[string]interface{}{"max_age": c.MaxAge, "redis": redis, "host": h, "cookie_domains": domains, "cookie": c.Name})
+						}
+					}
+					out.Obs("max-age-hosts", true, vL(vS(h), vStrs(domains), vBool(redis), vBool(big), vI(int64(n))))
+					out.Stat("maxage_host_cases", 1)
+				}
 			}
 		}
 	}
